@@ -43,6 +43,8 @@ type sessPath struct {
 	failed bool
 	// unknown: the interpretation hit something it cannot model
 	unknown string
+	// rets: the abstract value of every result (helpers with more results than the error)
+	rets []absVal
 }
 
 type sessAI struct {
@@ -58,10 +60,18 @@ type sessFrame struct {
 	state bool
 	evs   []sessEvent
 	fail  bool
+	// tuples: per-result abstract values of an inlined helper call
+	tuples map[ssa.Value][]absVal
 }
 
 func (f *sessFrame) clone() *sessFrame {
 	g := &sessFrame{fn: f.fn, recv: f.recv, state: f.state, fail: f.fail}
+	if len(f.tuples) > 0 {
+		g.tuples = make(map[ssa.Value][]absVal, len(f.tuples))
+		for k, v := range f.tuples {
+			g.tuples[k] = v
+		}
+	}
 	g.env = make(map[ssa.Value]absVal, len(f.env))
 	for k, v := range f.env {
 		g.env[k] = v
@@ -145,8 +155,12 @@ func (a *sessAI) walk(fr *sessFrame, b *ssa.BasicBlock, pred *ssa.BasicBlock, st
 		case *ssa.ChangeInterface:
 			fr.env[x] = a.eval(fr, x.X)
 		case *ssa.Extract:
-			// error component of a forked call: stored under the tuple
-			if tv, ok := fr.env[x.Tuple]; ok {
+			if tv, ok := fr.tuples[x.Tuple]; ok && x.Index < len(tv) {
+				if tv[x.Index].k != absUnknown {
+					fr.env[x] = tv[x.Index]
+				}
+			} else if tv, ok := fr.env[x.Tuple]; ok {
+				// error component of a forked call: stored under the tuple
 				if sig := tupleErrIndex(x.Tuple); sig == x.Index {
 					fr.env[x] = tv
 				}
@@ -190,6 +204,12 @@ func (a *sessAI) walk(fr *sessFrame, b *ssa.BasicBlock, pred *ssa.BasicBlock, st
 						g.env[x] = absVal{k: absNil}
 					} else {
 						g.env[x] = absVal{k: absNonNil}
+					}
+					if len(sp.rets) > 1 {
+						if g.tuples == nil {
+							g.tuples = map[ssa.Value][]absVal{}
+						}
+						g.tuples[x] = sp.rets
 					}
 					a.walk(g, b, pred, i+1, out, depth+1)
 				}
@@ -255,9 +275,16 @@ func (a *sessAI) walk(fr *sessFrame, b *ssa.BasicBlock, pred *ssa.BasicBlock, st
 			return
 		case *ssa.Return:
 			p := sessPath{events: fr.evs, state: fr.state, ret: x, failed: fr.fail}
-			if len(x.Results) == 1 {
-				v := a.eval(fr, x.Results[0])
-				p.retVal = x.Results[0]
+			ei := -1
+			for k := 0; k < fr.fn.Signature.Results().Len() && k < len(x.Results); k++ {
+				p.rets = append(p.rets, a.eval(fr, x.Results[k]))
+				if fr.fn.Signature.Results().At(k).Type().String() == "error" {
+					ei = k
+				}
+			}
+			if ei >= 0 {
+				v := p.rets[ei]
+				p.retVal = x.Results[ei]
 				switch v.k {
 				case absNil:
 					p.retNil = true
@@ -309,12 +336,14 @@ func checkSessionPath(initial bool, p sessPath, isFlush, isSend bool) string {
 	lastFlushOK := false
 	wrote := false
 	expectFlush := false
+	headerSet := false
 	for _, e := range p.events {
 		if expectFlush && e.kind != "res-flush" {
 			return "the Content-Type header store is not immediately followed by the flush that sends it"
 		}
 		switch e.kind {
 		case "header-set":
+			headerSet = true
 			if state {
 				return "the Content-Type header is set although the session is already upgraded (bytes were already sent)"
 			}
@@ -328,6 +357,9 @@ func checkSessionPath(initial bool, p sessPath, isFlush, isSend bool) string {
 		case "set-upgraded":
 			if !lastFlushOK {
 				return "didUpgrade is set without a successful flush right before it"
+			}
+			if !headerSet {
+				return "the session becomes upgraded on a path that did not set the Content-Type header (e.g. the store is conditional): the stream is sent with whatever type was there"
 			}
 			state = true
 		case "set-not-upgraded":
